@@ -23,6 +23,45 @@ def arg_root_via_parts(body, operand):
     return arg_root(t)
 
 
+def check_trailer_writer(R, web, rule):
+    """tonic-web's encode_trailers writes every (name, value) entry of the trailer map as `name ":" value CRLF` - one line per value,
+    so a repeated key reaches the client as repeated entries (joined with "," it would arrive as one entry with another value)"""
+    en = web.body('call::encode_trailers')
+    R.saw(en)
+    # every (name, value) entry of the map: HeaderMap::iter() / (&HeaderMap).into_iter(), consumed by fold / for_each / a for loop
+    it = [(bb, t) for bb, t in en.calls(name='iter') if 'HeaderMap' in (t.get('fn') or '')] + [(bb, t) for bb, t in en.calls(name='into_iter') if re.search(r'&(\'\w+ )?http::HeaderMap', str(t.get('self_ty')) + str(t.get('resolved')))]
+    bad_it = [t.get('name') for bb, t in en.calls() if t.get('name') in ('keys', 'values', 'get', 'index', 'drain') and 'HeaderMap' in (t.get('fn') or '') + str(t.get('self_ty'))]
+    R.check(len(it) == 1 and not bad_it, rule, 'every-entry', site(en), 'iterates HeaderMap::iter() (every value of every name): %d site(s); other map accessors: %r' % (len(it), bad_it))
+    cl = [c for c in web.children(en) if c.kind == 'closure']
+    wb = cl[0] if len(cl) == 1 and not [1 for bb, t in en.calls() if t.get('name') in ('put_slice', 'extend_from_slice', 'push', 'put_u8')] else (en if not cl else None)
+    if wb is not None:
+        c = wb
+        R.saw(c)
+        seq = []
+        for bb in sorted(c.live_blocks(), key=lambda x: len(c.dominators().get(x, ()))):
+            t = c.term(bb)
+            if t['k'] == 'call' and t.get('name') in ('put_slice', 'push', 'put_u8', 'extend_from_slice', 'put'):
+                a = c.origin(t['args'][1])
+                cv = const_val(strip_refs(a))
+                srcs = [str(x[4].get('fn')) + str(x[4].get('self_ty')) + str(x[4].get('resolved')) for x in find_terms(a, lambda x: is_call(x))]
+                if cv == ord(':') or cv == b':':
+                    seq.append(':')
+                elif isinstance(cv, bytes) and cv == b'\r\n':
+                    seq.append('CRLF')
+                elif any('HeaderName' in x for x in srcs):
+                    seq.append('name')
+                elif any('HeaderValue' in x for x in srcs):
+                    seq.append('value')
+                else:
+                    seq.append('?' + show(a)[:30])
+        R.eq(seq, ['name', ':', 'value', 'CRLF'], rule, 'entry-grammar', site(c), 'bytes written per entry')
+        if c is en:
+            wr = [bb for bb, t in en.calls() if t.get('name') in ('put_slice', 'extend_from_slice')]
+            R.check(bool(wr) and all(en.succs(x) and x in en.reachable(en.succs(x)[0]) for x in wr), rule, 'entry-grammar:in-loop', site(en), 'the per-entry writes are inside the loop over the entries')
+    else:
+        R.bad(rule, 'entry-grammar', site(en), 'encode_trailers has %d closures' % len(cl), kind='UNRECOGNISED')
+
+
 def run(R):
     web = R.crate('tonic_web')
     W = spec('wire')['grpc_web']
@@ -249,40 +288,7 @@ def run(R):
             R.check(is_call(strip_refs(ln), name='len') and mentions_call(ln, name='encode_trailers'), 'C16.R4', 'length=payload-length', site(mk, lay[1]['bb']), 'length = %s' % show(ln)[:100])
             pl = lay[2]['value']
             R.check(mentions_call(pl, name='encode_trailers'), 'C16.R4', 'payload=encoded-trailers', site(mk, lay[2]['bb']), 'payload = %s' % show(pl)[:100])
-        en = web.body('call::encode_trailers')
-        R.saw(en)
-        # every (name, value) entry of the map: HeaderMap::iter() / (&HeaderMap).into_iter(), consumed by fold / for_each / a for loop
-        it = [(bb, t) for bb, t in en.calls(name='iter') if 'HeaderMap' in (t.get('fn') or '')] + [(bb, t) for bb, t in en.calls(name='into_iter') if re.search(r'&(\'\w+ )?http::HeaderMap', str(t.get('self_ty')) + str(t.get('resolved')))]
-        bad_it = [t.get('name') for bb, t in en.calls() if t.get('name') in ('keys', 'values', 'get', 'index', 'drain') and 'HeaderMap' in (t.get('fn') or '') + str(t.get('self_ty'))]
-        R.check(len(it) == 1 and not bad_it, 'C16.R4', 'every-entry', site(en), 'iterates HeaderMap::iter() (every value of every name): %d site(s); other map accessors: %r' % (len(it), bad_it))
-        cl = [c for c in web.children(en) if c.kind == 'closure']
-        wb = cl[0] if len(cl) == 1 and not [1 for bb, t in en.calls() if t.get('name') in ('put_slice', 'extend_from_slice', 'push', 'put_u8')] else (en if not cl else None)
-        if wb is not None:
-            c = wb
-            R.saw(c)
-            seq = []
-            for bb in sorted(c.live_blocks(), key=lambda x: len(c.dominators().get(x, ()))):
-                t = c.term(bb)
-                if t['k'] == 'call' and t.get('name') in ('put_slice', 'push', 'put_u8', 'extend_from_slice', 'put'):
-                    a = c.origin(t['args'][1])
-                    cv = const_val(strip_refs(a))
-                    srcs = [str(x[4].get('fn')) + str(x[4].get('self_ty')) + str(x[4].get('resolved')) for x in find_terms(a, lambda x: is_call(x))]
-                    if cv == ord(':') or cv == b':':
-                        seq.append(':')
-                    elif isinstance(cv, bytes) and cv == b'\r\n':
-                        seq.append('CRLF')
-                    elif any('HeaderName' in x for x in srcs):
-                        seq.append('name')
-                    elif any('HeaderValue' in x for x in srcs):
-                        seq.append('value')
-                    else:
-                        seq.append('?' + show(a)[:30])
-            R.eq(seq, ['name', ':', 'value', 'CRLF'], 'C16.R4', 'entry-grammar', site(c), 'bytes written per entry')
-            if c is en:
-                wr = [bb for bb, t in en.calls() if t.get('name') in ('put_slice', 'extend_from_slice')]
-                R.check(bool(wr) and all(en.succs(x) and x in en.reachable(en.succs(x)[0]) for x in wr), 'C16.R4', 'entry-grammar:in-loop', site(en), 'the per-entry writes are inside the loop over the entries')
-        else:
-            R.bad('C16.R4', 'entry-grammar', site(en), 'encode_trailers has %d closures' % len(cl), kind='UNRECOGNISED')
+        check_trailer_writer(R, web, 'C16.R4')
         pe = web.body('call::GrpcWebCall::<B>::poll_encode')
         R.saw(pe)
         mt = pe.calls(name='make_trailers_frame')
